@@ -148,6 +148,35 @@ def write_replay(prop, case, violation, log=None, prefix="fail"):
     return path
 
 
+def merge_evidence(a, b, label_a, label_b):
+    """Evidence of a property decided by two tiers (e.g. serial histories + scheduled scenarios)."""
+    ca, cb = a["coverage"], b["coverage"]
+    cov = dict(ca)
+    cov["evaluations"] = ca["evaluations"] + cb["evaluations"]
+    cov["distinct_nontrivial"] = ca["distinct_nontrivial"] + cb["distinct_nontrivial"]
+    cov["rule"] = "[%s] %s  [%s] %s" % (label_a, ca["rule"], label_b, cb["rule"])
+    cov["samples"] = (ca["samples"][:2] + cb["samples"][:2])[:4]
+    for k in ("commands_executed", "scripts_executed", "inconclusive_cases", "regression_replays"):
+        cov[k] = ca.get(k, 0) + cb.get(k, 0)
+    cls = dict(ca.get("classes", {}))
+    for k, v in cb.get("classes", {}).items():
+        cls[k] = cls.get(k, 0) + v
+    cov["classes"] = dict(sorted(cls.items()))
+    for k in ("other_property_symptoms_seen", "known_finding_hits"):
+        d = dict(ca.get(k) or {})
+        for kk, v in (cb.get(k) or {}).items():
+            d[kk] = d.get(kk, 0) + v
+        cov[k] = d
+    cov["tiers"] = {label_a: {"evaluations": ca["evaluations"], "distinct_nontrivial": ca["distinct_nontrivial"]},
+                    label_b: {"evaluations": cb["evaluations"], "distinct_nontrivial": cb["distinct_nontrivial"]}}
+    ev = dict(a)
+    ev["coverage"] = cov
+    ev["assumptions"] = list(a.get("assumptions", [])) + list(b.get("assumptions", []))
+    ev["wall_s"] = round(a["wall_s"] + b["wall_s"], 2)
+    ev["violations"] = a["violations"] + b["violations"]
+    return ev
+
+
 def run_property(modname, tier, seed, workers=None):
     """Returns (exit_code, evidence dict)."""
     import importlib
@@ -166,6 +195,8 @@ def run_property(modname, tier, seed, workers=None):
                 continue
             with open(os.path.join(rdir, fn)) as f:
                 rp = json.load(f)
+            if hasattr(spec, "accepts") and not spec.accepts(rp["case"]):
+                continue   # a replay of this property's other tier
             try:
                 out = spec.run_case(rp["case"], tier)
             except runner.Inconclusive:
